@@ -91,84 +91,62 @@ def run(fx, chk, tier):
         chk.require(okh, "R1", s + "|header", "header carries the box's own type and box_size()", "%s::write_box does not start with its own header" % s, site_of(m.fw))
     chk.floor("R1", "encoders reachable from the muxer", n1, 30)
 
-    # ---------------- R3
-    wb = body_of(we)
-    flush = [b for b, t in wb.calls() if callee_path(t["callee"]) == twe["id"]]
-    patch = [b for b, t in wb.calls() if callee_path(t["callee"]) == um["id"]]
-    moov = [b for b, t in wb.calls() if "MoovBox" in (callee_path(t["callee"]) or "") and (callee_path(t["callee"]) or "").endswith("::write_box")]
-    ok = len(flush) == 1 and len(patch) == 1 and len(moov) == 1
-    if ok:
-        ok = (not wb.can_reach(patch[0], flush[0])) and wb.dominates(patch[0], moov[0]) and wb.in_loop(flush[0]) and not wb.in_loop(patch[0])
-        # the loop containing the flush precedes the patch: every path to the patch passes the loop head
-        L = [l for l in wb.loops() if flush[0] in l["body"]]
-        ok = ok and bool(L) and wb.dominates(L[0]["head"], patch[0])
-    chk.require(ok, "R3", "write_end|order", "track flushes (loop) < update_mdat_size < moov.write_box", "write_end does not run: flush every track, patch the mdat size, then write moov (in that order)", site_of(we))
-    Lp = LY.extract(fx, iof, um)
-    items = [x for x in Lp["items"] if x["n"] not in ("let",)]
-    first_pos = items and items[0]["n"] == "pos"
-    lets = {x["pat"]["name"]: x for x in Lp["items"] if x["n"] == "let" and x["pat"].get("k") == "bind"}
-    last_eff = [x for x in items if x["n"] in ("seek", "atom", "pos", "bytes")]
-    okp = bool(first_pos) and last_eff and last_eff[-1]["n"] == "seek" and LY.norm_expr(last_eff[-1]["how"]) == "SeekFrom::Start(mdat_end)" and "mdat_end" in lets and "mdat_size" in lets
-    if okp:
-        okp = LY.norm_expr(lets["mdat_size"]["init"]) == "(mdat_end Sub mdat_pos)"
-    chk.require(okp, "R3", "patch|measure-and-return", "mdat_end := position; size = mdat_end - mdat_pos; last effect seek(Start(mdat_end))",
-                "update_mdat_size does not measure position - mdat_pos and return the stream to where it started", site_of(um))
-
-    # ---------------- R4 (same rule as C13 R-MDAT prologue)
-    L = LY.extract(fx, iof, ws)
-    seqn = [x for x in L["items"] if x["n"] not in ("let",)]
-    kinds = [x["n"] for x in seqn if x["n"] != "ret"]
-    hdrs = [x for x in seqn if x["n"] == "hdr"]
-    good = kinds == ["child", "pos", "hdr", "hdr"]
-    if good:
-        good = (seqn[0].get("ty") == "FtypBox" and LY.norm_expr(hdrs[0]["ty"]).endswith("MdatBox") and LY.norm_expr(hdrs[1]["ty"]).endswith("WideBox")
-                and LY.const_of(fx, hdrs[0]["size"]) == 8 and LY.const_of(fx, hdrs[1]["size"]) == 8)
-    # mdat_pos field of the returned writer is the recorded position
-    chk.require(good, "R4", "prologue", "ftyp, position, mdat header (8), wide header (8), nothing else", "write_start's stream effects are %s, expected [ftyp child, position, mdat header, wide header]" % kinds, site_of(ws))
-
-    # ---------------- R5
+    # ---------------- R3 / R4 / R5: over effect traces of the muxer's public entry points (muxrules M4-M8): every stream
+    # operation each entry point can perform is accounted for, whatever private helpers it is split into
+    import muxrules
+    M = getattr(chk, "_mux", None) or muxrules.Mux(fx)
+    chk._mux = M
+    M.discover()
+    res = []
+    M.m8(res)
+    for ok_, key_, how_, fn_, line_ in res:
+        chk.require(ok_, "R3", key_ if key_ != "patch" else "patch|measure-and-return", how_, how_, site_of(fn_, line_))
+    res = []
+    M.m7(res)
+    for ok_, key_, how_, fn_, line_ in res:
+        chk.require(ok_, "R4", key_, how_, how_, site_of(fn_, line_))
+    res = []
+    M.io_shape(M.tw_sample, res, "write_sample-closure")
+    M.io_shape(M.w_sample, res, "write_sample-closure")
+    M.m4(M.w_sample, res)
+    M.m6(res)
+    M.io_shape(M.tw_end, res, "track-write_end")
+    seen_ = set()
+    for ok_, key_, how_, fn_, line_ in res:
+        if (ok_, key_) in seen_:
+            continue
+        seen_.add((ok_, key_))
+        chk.require(ok_, "R5", key_, how_, how_, site_of(fn_, line_))
+    # encoders are only entered from write_start / write_end: no codec event in any other entry point's traces (checked by
+    # the shapes above); and the functions that call stream *write* methods directly are encoders or lie on those traces
     direct = {}
     for fid in sorted(clo):
         fn = fx.fns[fid]
         body = body_of(fn)
         if body is None:
             continue
-        for b, t in body.calls():
-            if t["callee"].get("trait") in WRITE_TRAITS:
-                direct.setdefault(fid, set()).add((t["callee"].get("path") or "").split("::")[-1])
+        for b_, t_ in body.calls():
+            if t_["callee"].get("trait") in WRITE_TRAITS:
+                direct.setdefault(fid, set()).add((t_["callee"].get("path") or "").split("::")[-1])
 
     def is_encoder(fid):
         fn = fx.fns[fid]
         ts = short((fn.get("impl") or {}).get("trait") or "")
         return ts.startswith("WriteBox<") or ts.startswith("WriteDesc<") or fid.endswith("BoxHeader::write") or (fn["kind"] == "Fn" and fn["name"].startswith("write_")) or fn["name"] == "write" and short((fn.get("impl") or {}).get("self_ty", "")) == "NalUnit"
-    allowed_other = {ws["id"], wc["id"], um["id"]}
+    on_traces = set()
+    for fn_ in (M.w_start, M.w_add, M.w_sample, M.w_end, M.tw_sample, M.tw_end):
+        for tr in M.traces(fn_):
+            for e in tr:
+                if e["k"] == "io":
+                    on_traces.add(e["fn_id"])
     for fid, ops in sorted(direct.items()):
-        if is_encoder(fid) or fid in allowed_other:
-            chk.ok("R5", fn_short(fid), "%s: %s" % ("box encoder" if is_encoder(fid) else "prologue / chunk flush / mdat patch", sorted(ops)), site_of(fx.fns[fid]))
-        else:
-            chk.bad("R5", fn_short(fid), "%s writes or seeks the output stream directly (%s) but is neither a box encoder, the chunk flush, the mdat patch nor the prologue" % (fn_short(fid), sorted(ops)), site_of(fx.fns[fid]))
-    chk.floor("R5", "functions touching the output stream", len(direct), 40)
-    # encoders are entered only from write_start (ftyp) and write_end (moov) / other encoders
-    for fid in sorted(clo):
-        fn = fx.fns[fid]
         if is_encoder(fid):
-            continue
-        body = body_of(fn)
-        if body is None:
-            continue
-        for b, t in body.calls():
-            p = callee_path(t["callee"]) or ""
-            if p in fx.fns and is_encoder(p) and fid not in (ws["id"], we["id"], um["id"]):
-                chk.bad("R5", "%s|calls-encoder|%s" % (fn_short(fid), fn_short(p)), "%s invokes the encoder %s: bytes other than chunk payloads can enter the media data" % (fn_short(fid), fn_short(p)), site_of(fn, t.get("line")))
-    # write_sample's closure: only the chunk flush touches the stream
-    sclo = cg.closure([wsm["id"]])
-    touching = sorted(f for f in sclo if f in direct)
-    chk.require(touching == [wc["id"]], "R5", "write_sample-closure", "only the chunk flush touches the stream", "functions reachable from write_sample that touch the stream: %s" % [fn_short(x) for x in touching], site_of(wsm))
-    # the flush writes exactly one byte run: the chunk buffer
-    cb = body_of(wc)
-    wcalls = [(b, t) for b, t in cb.calls() if t["callee"].get("trait") in WRITE_TRAITS and not (t["callee"].get("path") or "").endswith("stream_position")]
-    ok = len(wcalls) == 1 and (wcalls[0][1]["callee"].get("path") or "").endswith("write_all") and "chunk_buffer" in cb.deep_str(wcalls[0][1]["args"][1])
-    chk.require(ok, "R5", "flush|payload-only", "one write_all of the chunk buffer", "the chunk flush writes something other than the pending chunk buffer", site_of(wc))
+            chk.ok("R5", fn_short(fid), "box encoder: %s" % sorted(ops), site_of(fx.fns[fid]))
+        elif fid in on_traces:
+            chk.ok("R5", fn_short(fid), "its stream operations appear on the checked traces of the entry points: %s" % sorted(ops), site_of(fx.fns[fid]))
+        else:
+            chk.bad("R5", fn_short(fid), "%s writes or seeks the output stream directly (%s) but is neither a box encoder nor part of a checked entry-point trace" % (fn_short(fid), sorted(ops)), site_of(fx.fns[fid]))
+    chk.floor("R5", "functions touching the output stream", len(direct), 40)
 
     # ---------------- R6  (dependencies of the stored values, from the abstract interpreter's provenance: independent of
     # parameter names, temporaries, cast spelling and of whether the total is accumulated or recomputed)
@@ -238,12 +216,12 @@ def run(fx, chk, tier):
                     it2.assign(st, b, i, s_)
         chk.require(bool(good), "R6", "movie duration", "max(old, track duration): %s" % why, "the writer's movie duration is not max(old, track duration): %s" % why, site_of(wud))
     stores = {}
-    for b in wb.reach:
-        for s in wb.stmts(b):
-            if s["k"] == "assign" and s["place"]["p"] and isinstance(s["place"]["p"][-1], dict) and short(s["place"]["p"][-1].get("adt", "")) == "MvhdBox":
-                stores[s["place"]["p"][-1]["f"]] = wb.rv_str(s["rv"])
-    chk.require(stores.get("timescale") == "self.timescale" and stores.get("duration") == "self.duration", "R6", "mvhd", "mvhd.timescale/duration copied from the writer",
-                "mvhd.timescale / mvhd.duration are not copied from the writer's fields in write_end (%s)" % stores, site_of(we))
+    for tr in M.traces(M.w_end):
+        for e in tr:
+            if e["k"] == "store" and e["adt"] == "MvhdBox":
+                stores.setdefault(e["field"], set()).add(e["val"])
+    chk.require(stores.get("timescale") == {"$1.timescale"} and stores.get("duration") == {"$1.duration"}, "R6", "mvhd", "mvhd.timescale/duration copied from the writer",
+                "mvhd.timescale / mvhd.duration are not copied from the writer's fields in write_end (%s)" % {k: sorted(v) for k, v in stores.items()}, site_of(we))
     return chk.finish(
         "other",
         "Sizes of the %d encoders reachable from the muxer are compared with their layouts in every shape cell; ordering, who-may-write and prologue/patch pairing are dominance and call-graph rules over the muxer closure. "
